@@ -4,9 +4,9 @@
 import json, os, shutil, subprocess, sys, tempfile
 pid, k = sys.argv[1].upper(), sys.argv[2]
 dest_k = sys.argv[3] if len(sys.argv) > 3 else k
-res = json.load(open("/tmp/seed/confirm_%s_%s.json" % (pid, k)))
+res = json.load(open("/tmp/seed/confirm%s_%s_%s.json" % (os.environ.get("SEED_TAG", ""), pid, k)))
 assert res["confirmed"], "not confirmed"
-OUT = "/tmp/seed/out_%s" % pid
+OUT = "/tmp/seed/out%s_%s" % (os.environ.get("SEED_TAG", ""), pid)
 patch, demo, note = [os.path.join(OUT, n % k) for n in ("patch%s.diff", "demo%s.py", "note%s.md")]
 tmp = tempfile.mkdtemp(prefix="verif_seed_")
 try:
